@@ -170,6 +170,25 @@ SNIPPET_STMTS = [
     "process is begin for i in 0 to 3 loop exit when i = 2; next; end loop; while a loop null; end loop; end process;",
     'process is variable v : integer := 0; begin v := f(1, 2); report "x" & integer\'image(3); return; end process;',
 ]
+# sources that END inside a comma-separated list (nothing raw is left behind the cursor): the comma loops of the classifier re-read
+# their start position and make progress only while unclassified tokens are left (see DESIGN 1.3a); 'for,,' made
+# instantiation_list.classify spin for ever before the repair
+TAIL_HEADS = ["attribute keep of", "for", "signal", "use", "group g : grp (", "variable", "constant", "file", "alias x is y [", "type t is (", "library", "disconnect"]
+TAIL_STMT_HEADS = ["process (", "wait on", "p : process begin wait on", "s <= f(", "u0 : x port map (", "with s select t <=", "assert x report", "s <= a when b else"]
+TAIL_ENDS = [",,", " ,,", " a,,", " a, ,", " ,", " a,", " a , ,", " a,, : c", ",,\n", " a,,\n", " a,,\n\n", " a, b,,", ",,,"]
+
+
+def tail_sources():
+    out = []
+    for h in TAIL_HEADS:
+        for e in TAIL_ENDS:
+            out.append("architecture rtl of e is\n" + h + e)
+    for h in TAIL_STMT_HEADS:
+        for e in TAIL_ENDS:
+            out.append("architecture rtl of e is\nbegin\n" + h + e)
+    return out
+
+
 _TOK = re.compile(r"<<|>>|:=|<=|=>|/=|>=|\*\*|\"[^\"]*\"|'.'|[A-Za-z_][A-Za-z_0-9.]*|\d+|\S")
 
 
@@ -179,6 +198,9 @@ def snippet_jobs():
         for k, txt in enumerate(lst):
             n = len(_TOK.findall(txt))
             out.append((kind, k, n))
+    n = len(tail_sources())
+    for k in range(0, n, 13):
+        out.append(("tail", k, min(13, n - k)))
     return out
 
 
@@ -188,6 +210,28 @@ def snippet_case(job):
     from vsg import vhdlFile
     from vsg.exceptions import ClassifyError
 
+    if kind == "tail":
+        out = []
+        signal.signal(signal.SIGALRM, _alarm)
+        for src in tail_sources()[k : k + n]:
+            what = "source ending in %r" % src[len("architecture rtl of e is\n") :]
+            signal.alarm(LIMIT)
+            try:
+                try:
+                    vhdlFile.vhdlFile(src.split("\n"), sFilename="snippet.vhd")
+                    out.append((what, "accepted", None))
+                except ClassifyError as e:
+                    msg = getattr(e, "message", str(e))
+                    out.append((what, "rejected", None) if re.search(r"Line \d+", msg) else (what, "unlocated", "ClassifyError without a line number: %r" % msg[:120]))
+                except Hang:
+                    out.append((what, "hang", "classification did not terminate within %d s" % LIMIT))
+                except RecursionError as e:
+                    out.append((what, "crash", "RecursionError at %s" % site(e.__traceback__)))
+                except Exception as e:
+                    out.append((what, "crash", "%s at %s" % (type(e).__name__, site(e.__traceback__))))
+            finally:
+                signal.alarm(0)
+        return out
     txt = (SNIPPET_DECLS if kind == "decl" else SNIPPET_STMTS)[k]
     toks = _TOK.findall(txt)
     out = []
